@@ -40,6 +40,19 @@ TOLX = 1e-7
 CONV_TOL = 1e-3
 FEAS_TOL = 1e-6
 KKT_FACTOR = 20.0
+WORK_LIMIT = 40000   # residual evaluations inside one subsolv call (a normal call needs 50-500)
+
+
+class _Truncate(Exception):
+    pass
+
+
+def _kkt_or_none(arg, ret):
+    n, m = arg['alfa'].shape[0], arg['a'].shape[0]
+    ok = (ret[0].shape == (n,) and all(ret[t].shape == (m,) for t in (1, 3, 6, 8))
+          and all(ret[t].shape == (n,) for t in (4, 5)) and ret[2].size == 1 and ret[7].size == 1
+          and arg['P'].shape == arg['Q'].shape == (m + 1, n) and arg['b'].shape == (m,))
+    return R.subproblem_kkt(arg, ret) if ok else None
 
 
 def bounds(tier, seed):
@@ -154,31 +167,50 @@ def execute(case):
     net = pym.Network(mods)
 
     cbs = []        # per callback: list of per-signal copies of the state
-    subs = []       # per subsolv call: arguments (copied before the call) and the returned tuple (copied)
-    orig = mmamod.subsolv
+    subs = []       # per subsolv call: arguments (copied before the call), returned tuple (copied), KKT residuals
+    orig, orig_res = mmamod.subsolv, mmamod.residual
+    buf = io.StringIO()
+    work = [0]
+    truncated = [None]
+
+    def counting_residual(*a, **kw):
+        work[0] += 1
+        if work[0] > WORK_LIMIT:
+            raise _Truncate('work limit')
+        return orig_res(*a, **kw)
 
     def spy(epsimin, low, upp, alfa, beta, P, Q, a0, a, b, c, d, x0=None):
         arg = dict(epsimin=float(epsimin), low=np.array(low, float), upp=np.array(upp, float),
                    alfa=np.array(alfa, float), beta=np.array(beta, float), P=np.array(P, float),
                    Q=np.array(Q, float), a0=float(a0), a=np.array(a, float), b=np.array(b, float),
                    c=np.array(c, float), d=np.array(d, float), x0=None if x0 is None else np.array(x0, float))
+        work[0] = 0
+        pos = buf.tell()
         ret = orig(epsimin, low, upp, alfa, beta, P, Q, a0, a, b, c, d, x0=x0)
-        subs.append((arg, tuple(np.array(r, float) for r in ret)))
+        capped = 'MMA Subsolver' in buf.getvalue()[pos:]
+        retc = tuple(np.array(r, float) for r in ret)
+        res = _kkt_or_none(arg, retc)
+        subs.append((arg, retc, res, capped))
+        if capped or res is None or max(res.values()) > KKT_FACTOR * arg['epsimin']:
+            # cost guard: once the inner Newton iteration hits its cap the run stays in that regime (seconds per
+            # call); everything up to and including this call is judged, the rest of the run is not executed
+            raise _Truncate('newton cap' if capped else 'kkt')
         return ret
 
     def callback():
         cbs.append([np.array(s.state) for s in sigs])
 
     spec = lambda v: v.copy() if isinstance(v, np.ndarray) else v
-    buf = io.StringIO()
-    mmamod.subsolv = spy
+    mmamod.subsolv, mmamod.residual = spy, counting_residual
     try:
         with contextlib.redirect_stdout(buf):
             pym.minimize_mma(net, sigs, outs, verbosity=0, maxit=MAXIT, tolx=TOLX, move=spec(move_spec),
                              xmin=spec(xmin_spec), xmax=spec(xmax_spec), mmaversion=case['version'],
                              asyinit=asyinit, asyincr=asyincr, asydecr=asydecr, albefa=albefa, fn_callback=callback)
+    except _Truncate as e:
+        truncated[0] = str(e).split('\n')[0]
     finally:
-        mmamod.subsolv = orig
+        mmamod.subsolv, mmamod.residual = orig, orig_res
     final = [np.array(s.state) for s in sigs]
 
     V, nchecks, observed = [], 0, set()
@@ -197,7 +229,9 @@ def execute(case):
         return np.concatenate([np.atleast_1d(np.asarray(v, float)).ravel() for v in states])
 
     nit = len(subs)
-    chk(len(cbs) == nit and len(seen) == nit and nit >= 1, 'schedule', {}, cbs=len(cbs), subs=nit, seen=len(seen))
+    pending = 1 if truncated[0] == 'work limit' else 0   # the call that was cut off has no record
+    chk(len(cbs) == nit + pending and len(seen) == nit + pending and len(cbs) >= 1, 'schedule', {},
+        cbs=len(cbs), subs=nit, seen=len(seen))
     nit = min(len(cbs), len(subs), len(seen))
     worst_kkt = 0.0
     for k in range(nit):
@@ -230,7 +264,7 @@ def execute(case):
                 {'move_kind': case['move'], 'bounds_kind': case['bounds'], 'ratio': q(step[j] / lim[j], 2)},
                 iteration=k, step=step, limit=lim)
         # --- what was handed to the sub-problem solver
-        arg, ret = subs[k]
+        arg, ret, res, capped = subs[k]
         low, upp, alfa, beta, P, Q, b = arg['low'], arg['upp'], arg['alfa'], arg['beta'], arg['P'], arg['Q'], arg['b']
         shapes_ok = (low.shape == upp.shape == alfa.shape == beta.shape == (n,) and P.shape == Q.shape == (m + 1, n)
                      and b.shape == (m,) and all(arg[kk].shape == (m,) for kk in 'acd'))
@@ -259,41 +293,52 @@ def execute(case):
         else:
             chk(False, 'design_outside_asymptotes', base_sig, iteration=k, low=low, upp=upp, x=xk)
         # --- the returned point
-        xr = ret[0]
-        ok_shapes = (xr.shape == (n,) and all(ret[t].shape == (m,) for t in (1, 3, 6, 8))
-                     and all(ret[t].shape == (n,) for t in (4, 5)) and ret[2].size == 1 and ret[7].size == 1)
-        chk(ok_shapes, 'solution_shapes', base_sig, iteration=k)
-        if not ok_shapes:
+        chk(res is not None, 'solution_shapes', base_sig, iteration=k)
+        if res is None:
             continue
+        xr = ret[0]
         chk(bool(np.all(xr >= alfa) and np.all(xr <= beta)), 'solution_in_interval', base_sig,
             iteration=k, x=xr, alfa=alfa, beta=beta)
-        res = R.subproblem_kkt(arg, ret)
         comp = max(res, key=lambda kk: res[kk])
         ratio = res[comp] / arg['epsimin'] if arg['epsimin'] > 0 else float('inf')
         worst_kkt = max(worst_kkt, ratio)
-        chk(ratio <= KKT_FACTOR, 'subproblem_kkt',
-            dict(base_sig, component=comp.split('_')[0], mag=mag(ratio)), iteration=k, residuals=res,
-            epsimin=arg['epsimin'])
+        ksig = {'cause': 'newton_iteration_cap'} if capped else \
+            dict(base_sig, cause='other', component=comp.split('_')[0], mag=mag(ratio))
+        chk(ratio <= KKT_FACTOR, 'subproblem_kkt', ksig, iteration=k, residuals=res, epsimin=arg['epsimin'],
+            ratio=ratio, newton_cap_reported=capped, subproblem=arg, returned=ret)
+        if capped:
+            observed.add('subsolv reported reaching its Newton iteration cap')
 
     # --- per run: convergence on the convex problem
     ref = _reference(case, lo, hi)
-    xf = flat(final)
     inconclusive = 0
-    conv_tag = 'noref'
     dist0 = None
-    if ref is None or not ref['unique'] or xf.shape != (n,):
+    if truncated[0]:
+        conv_tag = 'truncated'
+        observed.add(f'run truncated after iteration {"<20" if nit < 20 else ">=20"} ({truncated[0]}): '
+                     'convergence not judged')
+        if ref is not None:
+            dist0 = float(np.max(np.abs(x0 - ref['x']) / dx))
+    elif ref is None or not ref['unique']:
+        conv_tag = 'noref'
         inconclusive = 1
         observed.add('reference optimum not verified/unique: convergence not judged')
     else:
-        dist = float(np.max(np.abs(xf - ref['x']) / dx))
+        xf = flat(final)
         dist0 = float(np.max(np.abs(x0 - ref['x']) / dx))
-        gmax = float(np.max(prob.values(xf)[1:]))
-        sigc = dict(base_sig, obj=case['obj'], asy=case['asy'])
-        chk(dist <= CONV_TOL, 'convergence_distance', sigc, distance=dist, iterations=nit, final=xf, optimum=ref['x'])
-        chk(gmax <= FEAS_TOL, 'convergence_feasibility', sigc, max_constraint=gmax, iterations=nit)
-        conv_tag = 'conv' if (dist <= CONV_TOL and gmax <= FEAS_TOL) else 'noconv'
-    if 'MMA Subsolver' in buf.getvalue():
-        observed.add('subsolv reported reaching its Newton iteration cap')
+        ok_shape = xf.shape == (n,)
+        dist = float(np.max(np.abs(xf - ref['x']) / dx)) if ok_shape else float('inf')
+        gmax = float(np.max(prob.values(xf)[1:])) if ok_shape else float('inf')
+        if ref['balanced']:
+            sigc = dict(base_sig, obj=case['obj'], asy=case['asy'])
+            chk(dist <= CONV_TOL, 'convergence_distance', sigc, distance=dist, iterations=nit, final=xf,
+                optimum=ref['x'])
+            chk(gmax <= FEAS_TOL, 'convergence_feasibility', sigc, max_constraint=gmax, iterations=nit)
+            conv_tag = 'conv' if (dist <= CONV_TOL and gmax <= FEAS_TOL) else 'noconv'
+        else:
+            conv_tag = 'unbal-' + ('near' if dist <= CONV_TOL else 'cycle' if dist <= 2e-2 else 'far')
+            observed.add('optimum has a free variable with stationary objective (MMA 2-cycles at the smallest '
+                         'asymptote interval): convergence not judged')
 
     itb = '<10' if nit < 10 else '<20' if nit < 20 else '<40' if nit < 40 else ('<60' if nit < MAXIT else '=60')
     nact = 'na' if ref is None else f"{len(ref['active_cons'])}c{min(ref['active_bounds'], 3)}b"
